@@ -65,6 +65,7 @@ size_t sim_alloc_live_count();
 std::vector<SimAllocRec> sim_alloc_live();    // snapshot of live yara allocations
 void sim_alloc_forget_all();                  // drop the live table (does not free)
 std::string sim_symbolize(void* pc);          // function name from own ELF symtab ("?" if none)
+std::string sim_symbolize_data(const void* addr);   // "symbol+off" for an address inside a data object
 std::string sim_bt_chain(void* const* bt, int skip_sim, int want); // "f1<-f2<-f3" of yara frames
 
 // ------------------------------------------------------------------ clock ---
@@ -77,6 +78,7 @@ struct SimClock {
   int64_t jump_at_read = -1;           // at this read (1-based) jump by jump_ns first
   int64_t jump_ns = 0;
   std::function<void(int64_t)> on_read;  // called at every monotonic read with the read index
+  std::function<bool(int, struct timespec*)> override_fn;   // per-task clocks (threaded engines); true = handled
 };
 extern SimClock g_clock;
 void sim_clock_reset();
@@ -94,6 +96,7 @@ struct SimFs {
   bool fclose_fails = false;
 };
 extern SimFs g_fs;
+extern void (*g_after_mmap)();      // called right after a successful mmap made by yara code
 void sim_fs_reset();
 
 // ------------------------------------------------------------------ arena ---
